@@ -276,6 +276,23 @@ fn item<C: Suite>(ctx: &mut Ctx, n: u16, t: u16, k: usize, kind: &str) {
             cm.insert(*id, c2);
             cases.push((nm, cm));
         }
+        // the signer's real commitments are present, but filed under somebody else: its own slot holds foreign material
+        if let Some(other) = signers.iter().find(|o| *o != id) {
+            let mut cm = a.s.comms.clone();
+            cm.insert(*id, a.s.comms[other]);
+            cm.insert(*other, ca);
+            cases.push(("own-swapped-with-other-signer", cm));
+            let mut cm = a.s.comms.clone();
+            cm.insert(*id, cb);
+            cm.insert(*other, ca);
+            cases.push(("own-from-B-real-one-under-other-signer", cm));
+        }
+        if let Some(o) = outsiders.first() {
+            let mut cm = a.s.comms.clone();
+            cm.insert(*id, cb);
+            cm.insert(*o, ca);
+            cases.push(("own-from-B-real-one-under-outsider", cm));
+        }
         for (nm, cm) in cases {
             let pkg = SigningPackage::new(cm, &a.msg);
             match frost_core::round2::sign(&pkg, &a.s.nonces[id], &grp.kps[id]) {
